@@ -1297,7 +1297,7 @@ def core_classes(ctx: Ctx, mtext: str, canon_meaning: tuple) -> Tuple[str, List[
                 else:
                     fld = dump_diff(m20[1], m2[1], c2[1])
                     if fld is not None:
-                        fail(f"the fixed point reads differently from the mangled input under parser 2 (first difference: {fld})", kind="meaning_changed_parser2", field=fld)
+                        fail(f"the fixed point reads differently from the mangled input under parser 2 (first difference: {fld})", kind="meaning_changed", parser="2", field=fld)
         elif m2 != m1:
             # is it the checker's doing, or do the parsers already disagree on the mangled input?
             m20 = ctx.meaning(mtext, 2)
